@@ -968,7 +968,8 @@ Lemma df_drop_ok_frame g n s s' :
   df_drop g n s = (s', Ok tt) ->
   (forall i, h5_root s' i = h5_root s i) /\ (forall i, py_dfs s' i = py_dfs s i) /\
   py_cols s' g = d_del (py_cols s g) n /\ (forall x, x <> g -> py_cols s' x = py_cols s x) /\
-  (forall x, py_valid s' x = py_valid s x).
+  (forall x, py_valid s' x = py_valid s x) /\
+  (forall x, fld_type s' x = fld_type s x) /\ (forall x, fld_data s' x = fld_data s x).
 Proof.
   rewrite df_drop_run. destruct (negb (d_mem (py_cols s g) n)); [discriminate|]. cbv zeta.
   destruct (d_mem (h5_grp s g) n); [|discriminate]. intros H. inversion H; subst. cbn.
